@@ -819,6 +819,11 @@ def _scalar_value_tomof(
                 "for conversion to a MOF string",
                 type, builtin_type(value))
     val = str(value)
+    if isinstance(value, CIMFloat) and '.' not in val and \
+            val[-1:].isdigit():
+        # DSP0004 realValue requires a decimal point (e.g. 1e+20 -> 1.0e+20)
+        mantissa, exp_sep, exponent = val.partition('e')
+        val = mantissa + '.0' + exp_sep + exponent
     return mofval(val, indent, maxline, line_pos, end_space)
 
 
